@@ -26,6 +26,7 @@
    (the NTP epoch); the zero time.Time is None.  Time.Sub saturates to int64. *)
 From Coq Require Import ZArith List Bool.
 From Galene Require Import Lib.Word.
+From Galene Require Model.Keyframe.
 Import ListNotations.
 Open Scope Z_scope.
 
@@ -139,6 +140,27 @@ Record codec := mkCodec {
 }.
 Definition vp8_codec : codec :=
   mkCodec true 90000 vp8_keyframe vp8_dims vp8_start p_marker vp8_depack.
+(* H.264: codecs.Keyframe(video/h264) is Model/Keyframe.v (shared with C12):
+   the packet carries an SPS (single NAL unit, inside an aggregation packet
+   at any position, or at the start of a fragmented one).  No dimensions.
+   The depacketiser (pion H264Packet: Annex-B start codes, FU-A reassembly)
+   is NOT modelled: the content of H.264 recordings is checked by the
+   driver's monitors only; the model predicts the gap machine, the keyframe
+   requests, the origin and when the file is opened. *)
+Definition h264_kf (p : pkt) : bool :=
+  match Keyframe.keyframe_h264 (Keyframe.fuel_for (p_payload p)) (p_payload p) with
+  | Keyframe.Ok (true, _) => true
+  | _ => false
+  end.
+Definition h264_start (p : pkt) : bool :=
+  match p_payload p with
+  | b0 :: b1 :: _ =>
+    if (b0 mod 32 =? 28) || (b0 mod 32 =? 29) then 128 <=? b1 else true
+  | _ => false
+  end.
+Definition h264_codec : codec :=
+  mkCodec true 90000 h264_kf (fun _ => (0, 0)) h264_start p_marker (fun pl => Some pl).
+
 Definition opus_codec : codec :=
   mkCodec false 48000 (fun _ => false) (fun _ => (0, 0)) (fun _ => true) (fun _ => true)
           (fun pl => match pl with [] => None | _ => Some pl end).
